@@ -28,4 +28,9 @@ theorem tie_bloom_methods :
 theorem tie_bloom_foreign_lock_discipline :
     Generated.bloomForeignSkeletons.all (fun m => Locking.wellBracketed m.2) = true := by decide +kernel
 
+/-- no library function of packages bloom / merkleblock dereferences the message pointer that `MsgFilterLoad()` hands
+    out: that pointer is the filter's shared message *without* its lock, so a field read there races with `Reload`,
+    `Add`, … of another goroutine (the interleaving theorems of C20 speak about the calls, which hold the lock). -/
+theorem tie_bloom_no_unlocked_msg_access : Generated.bloomEscapedMsgAccesses = [] := by decide +kernel
+
 end Bch.Tie.Locking
